@@ -78,8 +78,36 @@ class C20(Prop):
         names = lang.variables(f)
         return {'formula': f, 'data': lang.gen_trace(rng, names, n)}
 
-    def gen(self, rng, ctx):
+    def gen_nested(self, rng):
+        """Chains of 2-3 temporal operators (bounded and unbounded, past and future) over one predicate,
+        optionally next to a second disjunct/conjunct: the explanation interval has to be propagated through
+        every level (begin AND end of the incoming interval matter)."""
+        x = lang.V(rng.choice(['x', 'y']))
+        n = rng.randint(5, 10)
+        f = lang.N(rng.choice(['geq', 'leq', 'gt', 'lt']), x, lang.C(rng.choice([0.0, 1.0, 2.0])))
+        for _ in range(rng.randint(2, 3)):
+            o = rng.choice(['eventually', 'always', 'once', 'historically', 'eventually', 'always', 'next', 'prev'])
+            if o in ('next', 'prev'):
+                f = lang.N(o, f)
+            elif rng.random() < 0.2:
+                f = lang.N(o, f)
+            else:
+                a = rng.randint(0, 2)
+                f = lang.N(o, f, ivl=(a, rng.randint(a, a + 3)))
+            if rng.random() < 0.2:
+                f = lang.N('not', f)
         if rng.random() < 0.4:
+            y = lang.V('z')
+            g = lang.N(rng.choice(['geq', 'leq']), y, lang.C(1.0))
+            f = lang.N(rng.choice(['or', 'and', 'implies']), *rng.sample([f, g], 2))
+        names = lang.variables(f)
+        return {'formula': f, 'data': lang.gen_trace(rng, names, n)}
+
+    def gen(self, rng, ctx):
+        r = rng.random()
+        if r < 0.25:
+            return self.gen_nested(rng)
+        if r < 0.55:
             return self.gen_multi_occurrence(rng)
         nv = rng.choice([1, 2, 2, 3])
         c = lang.GenCfg(vars=list(lang.VAR_POOL[:nv]), max_depth=rng.choice([1, 2, 2, 3, 4, 5]), since_until=False,
